@@ -106,6 +106,24 @@ def is_prefix(p, q):
     return list(q[:len(p)]) == list(p)
 
 
+GRAD_CTX = ["none", "no_grad", "retain_grads", "no_grad+retain_grads"]
+
+
+def grad_context(lib, name):
+    """the global grad-mode context a forward runs in (lib = the synapgrad module or torch)"""
+    import contextlib
+    st = contextlib.ExitStack()
+    if "no_grad" in name:
+        st.enter_context(lib.no_grad())
+    if "retain_grads" in name and hasattr(lib, "retain_grads"):
+        st.enter_context(lib.retain_grads())
+    return st
+
+
+def random_ctx(rng):
+    return "none" if rng.random() < 0.6 else rng.choice(GRAD_CTX[1:])
+
+
 def random_switches(rng, shape, n):
     """n train()/eval() calls on random nodes; now and then the pattern root.eval(); child.train(); root.eval()"""
     nodes = TREES[shape]["nodes"]
@@ -151,7 +169,7 @@ class BNCase:
                 for d in shape:
                     size *= d
                 vals = [Fraction(rng.randint(-16, 16), 4) for _ in range(size)]
-                self.events.append(("Forward", shape, vals))
+                self.events.append(("Forward", shape, vals, random_ctx(rng)))
 
     @classmethod
     def from_descr(cls, d):
@@ -170,8 +188,17 @@ class BNCase:
             else:
                 shape = tuple(e["forward"]["shape"])
                 c.rank, c.spatial = len(shape), shape[2:]
-                c.events.append(("Forward", shape, [Fraction(v) for v in e["forward"]["values"]]))
+                c.events.append(("Forward", shape, [Fraction(v) for v in e["forward"]["values"]], e["forward"].get("grad_context", "none")))
         return c
+
+    def eps_zero_legal(self):
+        """eps = 0 is only meaningful when no variance that is ever used can be 0: every forward has n >= 2 samples and a
+        non-constant sample list per feature (then the batch variances, hence also the running variances, are > 0)"""
+        for e in self.events:
+            if e[0] == "Forward":
+                if self.nsamp(e) < 2 or any(len(set(col)) < 2 for col in self.per_feature(e)):
+                    return False
+        return True
 
     def nsamp(self, ev):
         n = ev[1][0]
@@ -202,7 +229,7 @@ class BNCase:
                 "bias": [str(b) for b in self.beta] if self.affine else None,
                 "tree": self.tree, "layer_path": TREES[self.tree]["lp"],
                 "events": [{"set": {"node": e[1], "training": e[2]}} if e[0] == "Set" else
-                           {"forward": {"shape": list(e[1]), "values": [str(v) for v in e[2]]}} for e in self.events]}
+                           {"forward": {"shape": list(e[1]), "values": [str(v) for v in e[2]], "grad_context": e[3]}} for e in self.events]}
 
 
 def momentum_q(m):
@@ -240,7 +267,8 @@ def run_bn_impl(case):
                 x = sg.Tensor(np.array([float(v) for v in ev[2]], dtype=np.float64).reshape(ev[1]))
                 del captured[:]
                 try:
-                    y = root(x)                      # forwards go through the root of the tree
+                    with grad_context(sg, ev[3]):     # the global grad mode must not matter
+                        y = root(x)                  # forwards go through the root of the tree
                     yd = np.asarray(y.data, dtype=np.float64)
                     ycols = [frl(np.moveaxis(yd, 1, 0)[c]) for c in range(case.C)]
                     o["out"] = {"mean": frl(captured[-1][0]), "var": frl(captured[-1][1]), "y": ycols,
@@ -389,6 +417,7 @@ def judge_bn(case, obs):
             tl.bias.copy_(torch.tensor([float(b) for b in case.beta], dtype=torch.float64))
     troot, tnodes = build_tree(torch.nn, case.tree, tl)      # the same tree in torch, driven by the same events
     lp = TREES[case.tree]["lp"]
+    use_torch = case.eps != 0          # torch refuses eps = 0 in training; those histories are judged by the Fraction spec only
     # Fraction spec state (documented semantics)
     rm = [Fraction(0)] * case.C if case.track else None
     rv = [Fraction(1)] * case.C if case.track else None
@@ -447,8 +476,9 @@ def judge_bn(case, obs):
                     if not close(yi, (xi - mu[c]) / s * g + b):
                         return where + ": output %s for input %s, expected %s" % (float(yi), float(xi), float((xi - mu[c]) / s * g + b))
             # torch
-            if not (use_batch and n == 1):      # torch refuses batch statistics over one sample
-                ty = troot(torch.tensor([float(v) for v in ev[2]], dtype=torch.float64).reshape(ev[1])).detach().numpy()
+            if use_torch and not (use_batch and n == 1):      # torch refuses batch statistics over one sample
+                with grad_context(torch, ev[3]):
+                    ty = troot(torch.tensor([float(v) for v in ev[2]], dtype=torch.float64).reshape(ev[1])).detach().numpy()
                 if not np.allclose(ty, o["out"]["raw"], rtol=1e-6, atol=1e-6):
                     return where + ": output differs from torch by %g" % float(np.abs(ty - o["out"]["raw"]).max())
             # eval purity / determinism
@@ -469,7 +499,7 @@ def judge_bn(case, obs):
             for c in range(case.C):
                 if not close(o["rm"][c], rm[c]) or not close(o["rv"][c], rv[c]):
                     return where + ": running_mean/var[%d] = (%s, %s), expected (%s, %s)" % (c, float(o["rm"][c]), float(o["rv"][c]), float(rm[c]), float(rv[c]))
-            if tl.running_mean is not None:
+            if use_torch and tl.running_mean is not None:
                 if not np.allclose(tl.running_mean.numpy(), [float(v) for v in o["rm"]], rtol=1e-6, atol=1e-6) or \
                    not np.allclose(tl.running_var.numpy(), [float(v) for v in o["rv"]], rtol=1e-6, atol=1e-6):
                     return where + ": running statistics differ from torch (%s, %s)" % (tl.running_mean.numpy(), tl.running_var.numpy())
@@ -495,6 +525,7 @@ class DOCase:
         self.switches = [(list(pth), b) for pth, b in random_switches(rng, self.tree, rng.choice([0, 1, 2, 3, 4]))]
         if rng.random() < 0.5:                       # bias towards training mode at the forward (the interesting branch)
             self.switches.append(([], True) if rng.random() < 0.5 else (list(TREES[self.tree]["lp"]), True))
+        self.ctx = random_ctx(rng)
         self.training = self.expected_mode()
 
     def expected_mode(self):
@@ -510,6 +541,7 @@ class DOCase:
         c = cls.__new__(cls)
         c.p, c.dtype, c.shape, c.seed = d["p"], d["dtype"], tuple(d["shape"]), d["numpy_seed"]
         c.tree, c.switches = d["tree"], [(list(pth), b) for pth, b in d["switches"]]
+        c.ctx = d.get("grad_context", "none")
         c.training = c.expected_mode()
         c.x = [Fraction(v) for v in d["x"]]
         c.g = [Fraction(v) for v in d["g"]]
@@ -518,7 +550,7 @@ class DOCase:
     def descr(self):
         return {"p": self.p, "dtype": self.dtype, "shape": list(self.shape), "x": [str(v) for v in self.x],
                 "g": [str(v) for v in self.g], "numpy_seed": self.seed, "tree": self.tree,
-                "layer_path": TREES[self.tree]["lp"], "switches": [[pth, b] for pth, b in self.switches],
+                "layer_path": TREES[self.tree]["lp"], "switches": [[pth, b] for pth, b in self.switches], "grad_context": self.ctx,
                 "expected_mode_at_forward": "train" if self.training else "eval"}
 
 
@@ -535,9 +567,11 @@ def run_do_impl(case):
     r = np.random.rand(*case.shape)
     np.random.seed(case.seed)
     x = sg.Tensor(np.array([float(v) for v in case.x], dtype=dt).reshape(case.shape), requires_grad=True)
-    y = root(x)                                   # forward through the root of the tree
+    with grad_context(sg, case.ctx):              # the global grad mode must not change what Dropout does
+        y = root(x)                               # forward through the root of the tree
     res = {"layer_training": bool(layer.training), "r": frl(r), "same_object": y is x, "out": frl(np.asarray(y.data)), "dtype": str(y.data.dtype), "raw": np.asarray(y.data).copy()}
-    if y is not x:
+    res["graw"] = None
+    if y is not x and "no_grad" not in case.ctx:
         y.backward(sg.Tensor(np.array([float(v) for v in case.g], dtype=dt).reshape(case.shape)))
         res["grad"] = frl(np.asarray(x.grad.data))
         res["graw"] = np.asarray(x.grad.data).copy()
@@ -562,7 +596,7 @@ Import ListNotations.
 From SG Require Import Base.Cmp State.BNDropout State.ModeTree.
 Open Scope Q_scope.
 Definition rclose (tol a b : Q) : bool := Qle_bool (Qabs (a - b)) (tol * Qabs b).
-Record dcase := { d_p : Q; d_tree : tree; d_lp : path; d_sw : switches; d_same : bool; d_r : list Q; d_x : list Q; d_g : list Q; d_tol : Q;
+Record dcase := { d_p : Q; d_tree : tree; d_lp : path; d_sw : switches; d_same : bool; d_nograd : bool; d_r : list Q; d_x : list Q; d_g : list Q; d_tol : Q;
                   d_out : list Q; d_grad : option (list Q) }.
 (* d_same: the forward returned its input object (no graph node: eval mode); d_grad: x.grad after backward otherwise *)
 Definition case_ok (c : dcase) (_ : unit) : bool :=
@@ -573,7 +607,7 @@ Definition case_ok (c : dcase) (_ : unit) : bool :=
       Bool.eqb (negb mode) (d_same c) &&
       match d_grad c with
       | Some gr => mode && list_eqb (rclose (d_tol c)) (dropout_bwd (d_p c) (d_r c) (d_g c)) gr
-      | None => negb mode
+      | None => negb mode || d_nograd c       (* under no_grad the output cannot be back-propagated *)
       end
   end.
 """
@@ -581,8 +615,8 @@ Definition case_ok (c : dcase) (_ : unit) : bool :=
 
 def do_case_coq(case, res):
     sw = clist(["(%s, %s)" % (path_coq(pth), cb(b)) for pth, b in case.switches])
-    return "({| d_p := %s; d_tree := %s; d_lp := %s; d_sw := %s; d_same := %s; d_r := %s; d_x := %s; d_g := %s; d_tol := %s; d_out := %s; d_grad := %s |}, tt)" % (
-        cq(Fraction(float(case.p))), TREES[case.tree]["coq"], path_coq(TREES[case.tree]["lp"]), sw, cb(res["same_object"]), ql(res["r"]), ql(case.x), ql(case.g), cq(do_tol(case)),
+    return "({| d_p := %s; d_tree := %s; d_lp := %s; d_sw := %s; d_same := %s; d_nograd := %s; d_r := %s; d_x := %s; d_g := %s; d_tol := %s; d_out := %s; d_grad := %s |}, tt)" % (
+        cq(Fraction(float(case.p))), TREES[case.tree]["coq"], path_coq(TREES[case.tree]["lp"]), sw, cb(res["same_object"]), cb("no_grad" in case.ctx), ql(res["r"]), ql(case.x), ql(case.g), cq(do_tol(case)),
         ql(res["out"]), oql(res["grad"]))
 
 
@@ -623,11 +657,15 @@ def judge_do(case, res):
     if not np.array_equal(out, want):
         i = int(np.argmax(out != want))
         return "out[%d] = %r, x*m/(1-p) = %r (x=%r, kept=%s)" % (i, float(out[i]), float(want[i]), float(x[i]), bool(m[i]))
-    graw = res["graw"].reshape(-1)
-    gwant = np.where(m, g * scale, dt(0))
-    if not np.array_equal(graw, gwant):
-        i = int(np.argmax(graw != gwant))
-        return "x.grad[%d] = %r, g*m/(1-p) = %r: the backward does not go through the forward mask" % (i, float(graw[i]), float(gwant[i]))
+    if res["graw"] is None:
+        if "no_grad" not in case.ctx:
+            return "no gradient was produced"
+    else:
+        graw = res["graw"].reshape(-1)
+        gwant = np.where(m, g * scale, dt(0))
+        if not np.array_equal(graw, gwant):
+            i = int(np.argmax(graw != gwant))
+            return "x.grad[%d] = %r, g*m/(1-p) = %r: the backward does not go through the forward mask" % (i, float(graw[i]), float(gwant[i]))
     # Fraction statement with the rounding bound of two float operations
     q = 1 - Fraction(p)
     if p < 1:
@@ -673,8 +711,9 @@ class DSession:
             for d in shape:
                 size *= d
             self.calls.append({"shape": list(shape), "x": [Fraction(rng.choice(nz), 4) for _ in range(size)],
-                               "g": [Fraction(rng.choice(nz), 8) for _ in range(size)], "seed": rng.randrange(1 << 30)})
-        self.joint = same and rng.random() < 0.25
+                               "g": [Fraction(rng.choice(nz), 8) for _ in range(size)], "seed": rng.randrange(1 << 30),
+                               "ctx": "none" if rng.random() < 0.7 else rng.choice(GRAD_CTX[1:])})
+        self.joint = same and rng.random() < 0.25 and all("no_grad" not in c["ctx"] for c in self.calls)
         if self.joint:
             for c in self.calls[1:]:
                 c["g"] = list(self.calls[0]["g"])
@@ -687,8 +726,9 @@ class DSession:
                 if rng.random() < 0.6:
                     self.events.append(("Set", [], True))
             self.events.append(("F", k))
-            pending.append(k)
-            if not self.joint and rng.random() < 0.3:
+            if "no_grad" not in self.calls[k]["ctx"]:          # an output computed under no_grad cannot be back-propagated
+                pending.append(k)
+            if pending and not self.joint and rng.random() < 0.3:
                 self.events.append(("B", pending.pop(rng.randrange(len(pending)))))
         rng.shuffle(pending)
         if self.joint:
@@ -700,13 +740,13 @@ class DSession:
     def from_descr(cls, d):
         c = cls.__new__(cls)
         c.p, c.tree, c.joint = d["p"], d["tree"], d["joint_backward_through_sum"]
-        c.calls = [{"shape": cl["shape"], "x": [Fraction(v) for v in cl["x"]], "g": [Fraction(v) for v in cl["g"]], "seed": cl["numpy_seed"]} for cl in d["calls"]]
+        c.calls = [{"shape": cl["shape"], "x": [Fraction(v) for v in cl["x"]], "g": [Fraction(v) for v in cl["g"]], "seed": cl["numpy_seed"], "ctx": cl.get("grad_context", "none")} for cl in d["calls"]]
         c.events = [tuple(e) for e in d["events"]]
         return c
 
     def descr(self):
         return {"p": self.p, "tree": self.tree, "layer_path": TREES[self.tree]["lp"], "joint_backward_through_sum": self.joint,
-                "calls": [{"shape": c["shape"], "x": [str(v) for v in c["x"]], "g": [str(v) for v in c["g"]], "numpy_seed": c["seed"]} for c in self.calls],
+                "calls": [{"shape": c["shape"], "x": [str(v) for v in c["x"]], "g": [str(v) for v in c["g"]], "numpy_seed": c["seed"], "grad_context": c["ctx"]} for c in self.calls],
                 "events": [list(e) for e in self.events]}
 
     def modes(self):
@@ -739,7 +779,8 @@ def run_dsession_impl(ses):
             rs[e[1]] = frl(np.random.rand(*c["shape"]))
             np.random.seed(c["seed"])
             xs[e[1]] = sg.Tensor(np.array([float(v) for v in c["x"]], dtype=np.float64).reshape(c["shape"]), requires_grad=True)
-            ys[e[1]] = root(xs[e[1]])
+            with grad_context(sg, c["ctx"]):
+                ys[e[1]] = root(xs[e[1]])
             obs.append({"out": frl(np.asarray(ys[e[1]].data)), "raw": np.asarray(ys[e[1]].data).copy(), "same": ys[e[1]] is xs[e[1]]})
         else:
             c = ses.calls[e[1]]
@@ -929,18 +970,69 @@ def judge_bsession(ses):
     return None
 
 
+# ------------------------------------------------------------------ uncentred batches (|mean| >> std): accuracy of the batch statistics
+def uncentred_specs(ctx):
+    rng = ctx.rng
+    out = []
+    for dtype in ("float32", "float64"):
+        for ratio in (100, 1000, 10000):
+            for j in range(3 if ctx.quick else 12):
+                out.append({"dtype": dtype, "mean_over_std": ratio, "N": rng.choice([8, 16, 64]), "C": rng.randint(1, 3),
+                            "L": rng.choice([None, 2]), "std": rng.choice([0.5, 1.0, 2.0]), "sign": rng.choice([-1, 1]),
+                            "momentum": rng.choice([0.5, 0.1, 1.0]), "numpy_seed": rng.randrange(1 << 30)})
+    return out
+
+
+def judge_uncentred(spec):
+    """One training forward of a fresh BatchNorm1d on x = mean + std*randn with |mean|/std = 1e2..1e4, judged against the
+    float64 two-pass statistics of the very same data.  Tolerances (stated relative to that reference; the unchanged code is
+    >= 10x inside them): output |err| <= 2e-6*ratio (float32) / 1e-9*ratio (float64); running_var relative 1e-4 / 1e-10;
+    running_mean relative 1e-5 / 1e-12."""
+    impl = _impl()
+    np, sg, nn = impl.np, impl.synapgrad, impl.nn
+    impl.reset_modes()
+    dt = getattr(np, spec["dtype"])
+    rs = np.random.RandomState(spec["numpy_seed"])
+    shape = (spec["N"], spec["C"]) + ((spec["L"],) if spec["L"] else ())
+    x = (spec["sign"] * spec["mean_over_std"] * spec["std"] + spec["std"] * rs.randn(*shape)).astype(dt)
+    bn = nn.BatchNorm1d(spec["C"], momentum=spec["momentum"], dtype=dt)
+    y = np.asarray(bn(sg.Tensor(x)).data, dtype=np.float64)
+    x64 = x.astype(np.float64)
+    axes = tuple(i for i in range(x.ndim) if i != 1)
+    keep = tuple(1 if i != 1 else spec["C"] for i in range(x.ndim))
+    m, v = x64.mean(axis=axes), x64.var(axis=axes)
+    n = x.size / spec["C"]
+    ref = (x64 - m.reshape(keep)) / np.sqrt(v.reshape(keep) + 1e-5)
+    f = spec["momentum"]
+    rm, rv = (1 - f) * 0 + f * m, (1 - f) * 1 + f * v * n / (n - 1)
+    f32 = spec["dtype"] == "float32"
+    tol_o = (2e-6 if f32 else 1e-9) * spec["mean_over_std"]
+    if not np.all(np.isfinite(y)) or np.abs(y - ref).max() > tol_o:
+        return "training output differs from the float64 two-pass normalisation by %.3g (tolerance %.3g)" % (float(np.nanmax(np.abs(y - ref))), tol_o)
+    got_v = np.asarray(bn.running_var.data, dtype=np.float64)
+    if (np.abs(got_v - rv) / np.abs(rv)).max() > (1e-4 if f32 else 1e-10):
+        return "running_var = %s, float64 two-pass reference %s (relative error %.3g)" % (got_v.tolist(), rv.tolist(), float((np.abs(got_v - rv) / np.abs(rv)).max()))
+    got_m = np.asarray(bn.running_mean.data, dtype=np.float64)
+    if (np.abs(got_m - rm) / np.abs(rm)).max() > (1e-5 if f32 else 1e-12):
+        return "running_mean = %s, reference %s" % (got_m.tolist(), rm.tolist())
+    return None
+
+
 # ------------------------------------------------------------------ the check
 def gen_bn_cases(ctx):
     rng = ctx.rng
     cases = []
-    per = 6 if ctx.quick else 40
-    for momentum in (0.1, 0.125, 0.5, None):
+    per = 4 if ctx.quick else 30
+    for momentum in (0.1, 0.125, 0.5, None, 0.0, 1.0):
         for affine in (False, True):
             for track in (False, True):
                 for rank in (2, 3, 4):
                     for j in range(per):
                         eps = EPS_DYADIC if rng.random() < 0.5 else Fraction(1e-5)
-                        cases.append(BNCase(rng, momentum, affine, track, rank, eps))
+                        c = BNCase(rng, momentum, affine, track, rank, eps)
+                        if rng.random() < 0.3 and c.eps_zero_legal():
+                            c.eps = Fraction(0)
+                        cases.append(c)
     # momentum=None with many training forwards (cumulative average over k up to 8)
     for j in range(12 if ctx.quick else 60):
         c = BNCase(rng, None, rng.random() < 0.5, True, rng.choice([2, 3, 4]), EPS_DYADIC, exact=True)
@@ -1047,6 +1139,20 @@ def run(ctx):
         ctx.witness("nn.BatchNorm.forward", "multi-call", {"session": x.descr()},
                     "backward of call k uses the batch statistics of call k", {"verdict": v}, note="%d of %d sessions fail" % (len(bfail), len(bverd)))
 
+    # ---- uncentred batches: accuracy of the batch statistics against the float64 two-pass result ----
+    uspecs = uncentred_specs(ctx)
+    uverd = [(sp, judge_uncentred(sp)) for sp in uspecs]
+    ufail = [(sp, v) for sp, v in uverd if v]
+    ctx.tie("batchnorm/uncentred batches vs float64 two-pass", "reference", len(uspecs), len(uspecs), [{"spec": sp, "verdict": v} for sp, v in ufail],
+            note="x = mean + std*randn with |mean|/std in {1e2, 1e3, 1e4}, float32 and float64 layers, one training forward; output within "
+                 "2e-6*ratio (float32) / 1e-9*ratio (float64) and running_var within 1e-4 / 1e-10 relative of the float64 two-pass statistics "
+                 "of the same data (float rounding itself is outside the Coq model; this reference tie bounds it)")
+    if ufail:
+        sp, v = min(ufail, key=lambda t: (t[0]["N"] * t[0]["C"], -t[0]["mean_over_std"]))
+        ctx.witness("cpu_ops.batch_norm_forward", "uncentred-batch", {"spec": sp},
+                    "batch mean / biased variance as accurate as a two-pass computation: training output and running_var agree with the float64 two-pass reference",
+                    {"verdict": v}, note="%d of %d uncentred batches fail" % (len(ufail), len(uverd)))
+
     # ---- oracle (independent of Coq) ---------------------------------------------------------------
     verd = [(c, o, judge_bn(c, o)) for c, o in zip(cases, obs)]
     failing = [(c, o, v) for c, o, v in verd if v]
@@ -1085,6 +1191,10 @@ def replay(ctx, data):
     if data["class"] == "mask-distribution":
         bs = binomial_sanity(ctx)
         print(bs); return 0 if all(b["within_6_sigma"] for b in bs) else 1
+    if data["class"] == "uncentred-batch":
+        v = judge_uncentred(data["input"]["spec"])
+        print("verdict:", v)
+        return 1 if v else 0
     if data["class"] == "multi-call":
         if data["site"].startswith("nn.Dropout"):
             x = DSession.from_descr(data["input"]["session"])
